@@ -36,6 +36,23 @@ fn short_strings(alpha: &[char], max: usize) -> Vec<String> {
     out
 }
 
+/// SCALE: long words -- a filler repeated to each size threshold, with one special piece at the start, middle or end
+fn scaled_words(thorough: bool, fillers: &[&str], specials: &[&str]) -> Vec<String> {
+    let mut out = vec![];
+    for n in thresholds(thorough) {
+        if n > 5000 { continue; }
+        for f in fillers {
+            let big = inflate(f, n);
+            let half = inflate(f, n / 2);
+            for sp in specials {
+                out.push(format!("{big}{sp}")); out.push(format!("{sp}{big}")); out.push(format!("{half}{sp}{half}"));
+            }
+            out.push(big);
+        }
+    }
+    out
+}
+
 /// C03 (+ C09 serialisation loses nothing): every scalar value in every component position, built with the builder
 pub fn suite_format_unicode(ctx: &Ctx, thorough: bool, props: &str) {
     let chars: Vec<char> = all_scalars().collect();
@@ -174,6 +191,7 @@ fn drop_insignificant(o: &Obs) -> Obs {
 pub fn suite_pkgrules(ctx: &Ctx, thorough: bool) {
     let mut names: Vec<String> = all_scalars().map(|c| c.to_string()).collect();
     names.extend(short_strings(&['a', 'A', '1', '-', '_', '.', 'Æ', 'ǅ'], if thorough { 6 } else { 4 }));
+    names.extend(scaled_words(thorough, &["a", "A", "é", "-", "a_"], &["A", "Æ", "ǅ", "İ", "_.", "-", "--", "."]));
     let types = all_package_types();
     par_for(names.len(), &|i| {
         let name = &names[i];
@@ -227,6 +245,7 @@ pub fn suite_pkgrules(ctx: &Ctx, thorough: bool) {
 pub fn suite_lower(ctx: &Ctx, thorough: bool) {
     let mut inputs: Vec<String> = all_scalars().map(|c| c.to_string()).collect();
     inputs.extend(short_strings(&['a', 'A', '1', '-', '_', '.', 'Æ', 'ǅ', 'İ'], if thorough { 6 } else { 4 }));
+    inputs.extend(scaled_words(thorough, &["a", "A", "é", "-", "a_"], &["A", "Æ", "ǅ", "İ", "_.", "-", "--", "."]));
     par_for(inputs.len(), &|i| {
         let s = &inputs[i];
         ctx.eval();
@@ -254,6 +273,7 @@ pub fn suite_lower(ctx: &Ctx, thorough: bool) {
 pub fn suite_preds(ctx: &Ctx, thorough: bool) {
     let mut inputs: Vec<String> = all_scalars().map(|c| c.to_string()).collect();
     inputs.extend(short_strings(&['a', 'Z', '0', '.', '+', '-', '_', '!', 'é', '%'], if thorough { 5 } else { 4 }));
+    inputs.extend(scaled_words(thorough, &["a", "Z", "0", "a.B"], &["Z", "z", "+", "_", "!", "é", "%", " "]));
     par_for(inputs.len(), &|i| {
         let s = &inputs[i];
         ctx.eval();
@@ -340,6 +360,14 @@ pub fn suite_names(ctx: &Ctx, thorough: bool) {
     }
     for other in ["alpm", "apk", "bitbucket", "cocoapods", "composer", "conan", "conda", "cran", "deb", "docker", "generic", "github", "hackage", "hex", "huggingface", "mlflow", "oci", "pub", "qpkg", "rpm", "swid", "swift", "go", "rubygems", "crates", "pip", "python", "mvn", "node"] {
         cands.push(other.to_string());
+    }
+    // SCALE: long look-alikes -- a name repeated, padded or followed by a long tail
+    for n in refimpl::KNOWN_TYPES {
+        for len in thresholds(thorough) {
+            if len > 70000 { continue; }
+            cands.push(inflate(n, len)); cands.push(format!("{n}{}", inflate(" ", len))); cands.push(format!("{}{n}", inflate("a", len)));
+            cands.push(format!("{n}{}", inflate("\0", len))); cands.push(inflate(&n.to_uppercase(), len));
+        }
     }
     par_for(cands.len(), &|i| {
         let v = &cands[i];
@@ -431,6 +459,8 @@ pub fn suite_serde(ctx: &Ctx, thorough: bool) {
     for_all_token_strings("pkg:t/", n, &|s| serde_one(ctx, s));
     for_all_token_strings("pkg:npm/", n - 1, &|s| serde_one(ctx, s));
     for_all_token_strings("", 2, &|s| serde_one(ctx, s));
+    // SCALE: the same on strings with one component grown across the size thresholds
+    for_all_scaled_strings(thorough, &|s| serde_one(ctx, s));
     for v in [json!(null), json!(1), json!(1.5), json!(true), json!([]), json!(["pkg:t/n"]), json!({"purl": "pkg:t/n"}), json!({})] {
         ctx.eval();
         if serde_json::from_value::<GenericPurl<String>>(v.clone()).is_ok() || serde_json::from_value::<Purl>(v.clone()).is_ok() {
@@ -562,6 +592,30 @@ pub fn suite_eq(ctx: &Ctx, thorough: bool) {
     }
     pairs(ctx, &vals);
     pairs(ctx, &tvals);
+    // SCALE: values whose long component differs only in its last / first character, next to re-spelled identical copies
+    for n in thresholds(thorough) {
+        if n > 5000 { continue; }
+        let big = inflate("ab", n);
+        let mut group: Vec<String> = vec![];
+        for (pre, post) in [("pkg:t/", "/n"), ("pkg:t/ns/", ""), ("pkg:t/ns/n@", ""), ("pkg:t/ns/n?k=", ""), ("pkg:t/ns/n?k=", "&z=1"), ("pkg:t/ns/n#", ""), ("pkg:t/ns/n#s/", "/t")] {
+            group.push(format!("{pre}{big}{post}"));
+            group.push(format!("{pre}{big}c{post}"));
+            group.push(format!("{pre}{big}d{post}"));
+            group.push(format!("{pre}c{big}{post}"));
+            group.push(format!("{pre}{}{post}", big.replacen("ab", "%61b", 1)));
+        }
+        if n <= 300 {
+            let qs: Vec<String> = (0..n).map(|i| format!("k{i}=v")).collect();
+            let mut qs2 = qs.clone(); let last = qs2.len() - 1; qs2[last] = format!("k{}=w", last);
+            let mut qs3 = qs.clone(); qs3.reverse();
+            group.push(format!("pkg:t/n?{}", qs.join("&"))); group.push(format!("pkg:t/n?{}", qs2.join("&"))); group.push(format!("pkg:T/n?{}", qs3.join("&").to_uppercase().replace("=V", "=v")));
+        }
+        let gv: Vec<(String, GenericPurl<String>, String)> = group.iter().filter_map(|s| GenericPurl::<String>::from_str(s).ok().map(|p| { let t = p.to_string(); (s.clone(), p, t) })).collect();
+        if gv.len() != group.len() { ctx.violate("C19.scale", "scaled corpus strings are all accepted", json!(n), format!("{} of {}", gv.len(), group.len()), "all".into()); }
+        pairs(ctx, &gv);
+        let tv: Vec<(String, Purl, String)> = group.iter().map(|s| s.replace("pkg:t", "pkg:nuget").replace("pkg:T", "pkg:NUGET")).filter_map(|s| Purl::from_str(&s).ok().map(|p| { let t = p.to_string(); (s.clone(), p, t) })).collect();
+        pairs(ctx, &tv);
+    }
     // values made with the builder: fields that differ only in insignificant-looking ways must still be told apart
     let mut built: Vec<(String, GenericPurl<String>, String)> = vec![];
     let nss = ["", "a", "a/b", "a//b", "a/b/", "/a/b", "/", "a%2Fb", "A/b"];
@@ -660,7 +714,18 @@ pub fn suite_assumptions(ctx: &Ctx, thorough: bool) {
 
 /// C18: combined names split and join at the ecosystem separator
 pub fn suite_comb(ctx: &Ctx, thorough: bool) {
-    let strs = short_strings(&['a', '/', ':', 'é', 'B'], if thorough { 7 } else { 5 });
+    let mut strs = short_strings(&['a', '/', ':', 'é', 'B'], if thorough { 7 } else { 5 });
+    // SCALE: long namespaces / names, separators far from both ends, many separators
+    for n in thresholds(thorough) {
+        if n > 70000 { continue; }
+        let big = inflate("ab", n);
+        for sep in ["/", ":"] {
+            strs.push(format!("{big}{sep}n")); strs.push(format!("g{sep}{big}")); strs.push(format!("{big}{sep}{big}"));
+            strs.push(format!("{big}{sep}x{sep}{big}")); strs.push(format!("{sep}{big}")); strs.push(format!("{big}{sep}"));
+            if n <= 1100 { strs.push(inflate(&format!("s{sep}"), 3 * n)); strs.push(format!("{}t", inflate(&format!("s{sep}"), 3 * n))); }
+        }
+        strs.push(big);
+    }
     par_for(strs.len(), &|i| {
         let s = &strs[i];
         for t in all_package_types() {
